@@ -57,7 +57,16 @@ Proof.
   induction s as [|b r IH]; intros l; [right; reflexivity|left].
   cbn [read_ext]. destruct (b =? 255)%N; [|cbn; lia].
   destruct r as [|b' r']; [cbn; lia|].
-  destruct (IH ((l + b) mod U32)%N) as [H|H]; [cbn [length] in *; lia|discriminate].
+  destruct (IH (if l + b <? U32 then l + b else U32 - 1)%N) as [H|H]; [cbn [length] in *; lia|discriminate].
+Qed.
+
+(* a length never wraps: the extension bytes only ever add to it, up to the largest 32-bit value *)
+Lemma read_ext_monotone s : forall l, (l < U32)%N -> (l <= fst (read_ext s l) < U32)%N.
+Proof.
+  induction s as [|b r IH]; intros l Hl; [cbn; lia|]. cbn [read_ext].
+  assert (Hl' : (l <= (if l + b <? U32 then l + b else U32 - 1) < U32)%N) by (destruct (l + b <? U32)%N eqn:E; unfold U32 in *; lia).
+  destruct (b =? 255)%N; [|cbn; exact Hl'].
+  destruct r as [|b' r']; [cbn; exact Hl'|]. specialize (IH _ (proj2 Hl')). lia.
 Qed.
 
 Lemma read_literal_suffix s l : length (snd (read_literal s l)) <= length s.
